@@ -695,6 +695,8 @@ class World:
         # larger than max_cholesky_size, so Lanczos / CG with their 1e-6 jitter and random start vectors are the default): every
         # functional carries noise of the order cond * 1e-6
         direct = rec.D.shape[-1] <= world.S.max_cholesky_size.value()
+        if op.get("args", {}).get("method") == "lanczos" or "lanczos" in (rec.spec.get("args", {}).get("root_decomp_method"), rec.spec.get("args", {}).get("root_inv_decomp_method")):
+            direct = False  # an explicitly requested Lanczos factor (or an object derived through one) carries the iterative regime's noise
         floor = (FLOOR_INV if (op["q"] in INVERSE_QUERIES or not direct) else FLOOR)[self.dtype]
         ctx = f"caches met: {[f'{p}:{n}<-step{self.prov.get((rec.oid, p, n), ("?",))[0]}' for p, n in foreign][:8]}"
         if fault and fired:
